@@ -33,11 +33,9 @@ impl AssignAddTransform {
                 // mentions the target twice: whatever in it is more than an identifier is evaluated
                 // once into a temporary first
                 let mut hoisted = Vec::new();
-                let left = match left_expr {
-                    SimpleAssignTarget::Member(member) => AssignTarget::Simple(
-                        SimpleAssignTarget::Member(Self::hoist_target(member, &mut hoisted, opv, &span)),
-                    ),
-                    _ => assign.left.clone(),
+                let left = match Self::hoist_simple_target(left_expr, &mut hoisted, opv, &span) {
+                    Some(target) => AssignTarget::Simple(target),
+                    None => assign.left.clone(),
                 };
                 let left_operand: Box<Expr> = match &left {
                     AssignTarget::Simple(simple) => simple.clone().into(),
@@ -93,6 +91,70 @@ impl AssignAddTransform {
         }
     }
 
+    fn hoist_simple_target(
+        target: &SimpleAssignTarget,
+        hoisted: &mut Vec<Expr>,
+        opv: &mut OperationTransformVisitor,
+        span: &Span,
+    ) -> Option<SimpleAssignTarget> {
+        match target {
+            SimpleAssignTarget::Member(member) => Some(SimpleAssignTarget::Member(
+                Self::hoist_target(member, hoisted, opv, span),
+            )),
+            SimpleAssignTarget::SuperProp(super_prop) => Some(SimpleAssignTarget::SuperProp(
+                Self::hoist_super_target(super_prop, hoisted, opv, span),
+            )),
+            // `(o().p) += x`: the parentheses around a target carry no meaning
+            SimpleAssignTarget::Paren(paren) => {
+                let mut inner = &*paren.expr;
+                while let Expr::Paren(inner_paren) = inner {
+                    inner = &*inner_paren.expr;
+                }
+                match inner {
+                    Expr::Member(member) => Some(SimpleAssignTarget::Member(Self::hoist_target(
+                        member, hoisted, opv, span,
+                    ))),
+                    Expr::SuperProp(super_prop) => Some(SimpleAssignTarget::SuperProp(
+                        Self::hoist_super_target(super_prop, hoisted, opv, span),
+                    )),
+                    _ => None,
+                }
+            }
+            _ => None,
+        }
+    }
+
+    fn hoist_key(
+        computed: &mut ComputedPropName,
+        hoisted: &mut Vec<Expr>,
+        opv: &mut OperationTransformVisitor,
+        span: &Span,
+    ) {
+        if !matches!(*computed.expr, Expr::Ident(_) | Expr::Lit(_)) {
+            if let Some(ident) = opv.ident_provider.get_temporal_ident_used_in_assignation(
+                &computed.expr,
+                hoisted,
+                span,
+                IdentKind::Expr,
+            ) {
+                computed.expr = Box::new(Expr::Ident(ident));
+            }
+        }
+    }
+
+    fn hoist_super_target(
+        super_prop: &SuperPropExpr,
+        hoisted: &mut Vec<Expr>,
+        opv: &mut OperationTransformVisitor,
+        span: &Span,
+    ) -> SuperPropExpr {
+        let mut super_prop = super_prop.clone();
+        if let SuperProp::Computed(computed) = &mut super_prop.prop {
+            Self::hoist_key(computed, hoisted, opv, span);
+        }
+        super_prop
+    }
+
     fn hoist_target(
         member: &MemberExpr,
         hoisted: &mut Vec<Expr>,
@@ -111,16 +173,7 @@ impl AssignAddTransform {
             }
         }
         if let MemberProp::Computed(computed) = &mut member.prop {
-            if !matches!(*computed.expr, Expr::Ident(_) | Expr::Lit(_)) {
-                if let Some(ident) = opv.ident_provider.get_temporal_ident_used_in_assignation(
-                    &computed.expr,
-                    hoisted,
-                    span,
-                    IdentKind::Expr,
-                ) {
-                    computed.expr = Box::new(Expr::Ident(ident));
-                }
-            }
+            Self::hoist_key(computed, hoisted, opv, span);
         }
         member
     }
